@@ -54,7 +54,7 @@ def apply_edit(root, e):
             s = f.read()
         if ed.get("all"):
             n = s.count(ed["old"])
-            s2 = s.replace(ed["old"], ed["new"])
+            s2 = re.sub(ed["old"], ed["new"], s) if ed.get("regex") else s.replace(ed["old"], ed["new"])
             if s2 == s:
                 return "edit changed nothing"
             with open(p, "w") as f:
